@@ -57,6 +57,8 @@ def rid_fn(kind, seed):
             return 1000 + lid
         if kind == 'same':
             return lid
+        if kind == 'mirror':
+            return lid + 1 if lid % 2 else lid - 1       # streams (1, 2) and (2, 1), (3, 4) and (4, 3), ...: each pair is the other's mirror image
         while True:
             v = r.randrange(1, 2 ** 32) if kind == 'random' else r.randrange(2 ** 31, 2 ** 32)
             if v not in used and v != lid:
@@ -276,6 +278,8 @@ def run(spec, mode='sync', rec=None, chooser=None, keep_session=False, **core_kw
         kw = dict(core_kw)
         if 'frag' not in kw and spec.get('frag', 'whole') != 'whole':
             kw['frag'] = frag_fn(spec['frag'], seed)
+        if 'tick' not in kw and spec.get('tick'):
+            kw['tick'] = spec['tick']          # every transport call takes this much (virtual) time
         if 'rtype' not in kw and spec.get('rtype'):
             kw['rtype'] = spec['rtype']
         if 'wcap' not in kw and spec.get('wcap') is not None:
@@ -750,7 +754,7 @@ def gen_session(rng, idx, big=False, adversarial=False, ops_max=6, allow=('shell
             ops.append(dict(api='push', path=rng.choice(['/q', '/sdcard/' + 'n' * rng.randint(1, 900), '/sdcard/résumé€.bin']), size=size, src=rng.choice(['bytesio', 'path']),
                             st_mode=rng.choice([0o100644, 33272, 0xFFFFFFFF, 0]), mtime=rng.choice([1, 1500000000, 0xFFFFFFFF, 0]), cb=rng.choice([None, None, 'ok']),
                             local_as=rng.choice(['str', 'pathlib']), src_short=rng.choice([None, None, 1, 1000, 70000]), src_offset=rng.choice([0, 0, 0, 5])))
-    spec = dict(seed=rng.randrange(1 << 30), maxdata=maxdata, rid=rng.choice(['plus', 'random', 'high', 'same']), frag=rng.choice(['whole', 'whole', 'random', 'empty']),
+    spec = dict(seed=rng.randrange(1 << 30), maxdata=maxdata, rid=rng.choice(['plus', 'random', 'high', 'same', 'mirror']), frag=rng.choice(['whole', 'whole', 'random', 'empty']),
                 lid0=rng.choice([None, None, 2 ** 32 - 3, 2 ** 31 - 2, 65534]), ops=ops)
     if adversarial:
         # legal but unusual device behaviour, and local failures in the middle of a transfer
